@@ -192,7 +192,8 @@ def gen_value(rng, t, name, depth=0):
         if n == "u8":
             return rng.choice(["%s = %d" % (name, rng.randint(0, 255)), '%s = "%d"' % (name, rng.randint(0, 255)), "%s = 0x1F" % name])
         if n == "i64":
-            return rng.choice(["%s = %d" % (name, rng.randint(0, 10 ** 6)), '%s = "-%d"' % (name, rng.randint(1, 99)), "%s = 7_000i64" % name])
+            return rng.choice(["%s = %d" % (name, rng.randint(0, 10 ** 6)), '%s = "-%d"' % (name, rng.randint(1, 99)), "%s = 7_000i64" % name,
+                               "%s = -%d" % (name, rng.randint(1, 9999))])
         if n == "String":
             return '%s = "%s"' % (name, rng.choice(["s", "hello world", "", "x y", "ünï"]))
         if n == "char":
